@@ -39,7 +39,9 @@ def _run_case(spec):
     # intermediates cached beforehand switch the cache-state arms on the way to
     # the constraints (e.g. s_Ricci_down3 from a cached s_Riemann_down3); they
     # are requested, not judged here (C04/C05 judge them)
-    pre = [[], ['s_Riemann_down3'], ['st_Riemann_down4'], ['s_RicciS', 'Tdown4']][int(rng.integers(4))]
+    pre = [[], ['s_Riemann_down3'], ['st_Riemann_down4'], ['s_RicciS', 'Tdown4'],
+           ['A2', 'Aup3'], ['gup4', 'gdet'], ['rho_n', 'fluxup3_n'],
+           ['Aup3_bssnok', 's_Gamma_udd3']][int(rng.integers(8))]
     if spec.get('components') and rng.random() < 0.6:
         # inputs given component by component and a constraint asked first:
         # nothing has assembled the tensors (betaup3, gammadown3, ...) yet
